@@ -1716,6 +1716,95 @@ fn main() {
             db.notify_background_signal_for_verif();
             std::process::exit(0);
         }
+        // truncated_batch : every proper prefix of an encoded two-put batch must be rejected by the batch decoder
+        "truncated_batch" => {
+            let bytes = v::encode_put_batch(7, &[(b"key-one".to_vec(), vec![0x41u8; 40]), (b"k2".to_vec(), vec![0x42u8; 300])]);
+            println!("full_accepted={}", v::parse_batch(&bytes));
+            let mut accepted = 0usize;
+            let mut first = String::new();
+            for n in 0..bytes.len() {
+                if v::parse_batch(&bytes[..n]) {
+                    accepted += 1;
+                    if first.is_empty() {
+                        first = n.to_string();
+                    }
+                }
+            }
+            println!("prefixes={}", bytes.len());
+            println!("accepted_prefixes={}", accepted);
+            println!("first_accepted={}", first);
+        }
+        // table_block_corruption_sweep : one table (several data blocks, filter block); every byte of the file is inverted in
+        // turn; after each damage every stored key is looked up: the lookup must fail or return the stored value
+        "table_block_corruption_sweep" => {
+            let fs = std::sync::Arc::new(raindb::fs::InMemoryFileSystem::new());
+            let o = v::options_with(fs, 128);
+            let owned: Vec<(Vec<u8>, u64, bool, Vec<u8>)> = (0..12u8).map(|i| (format!("key{:02}", i).into_bytes(), 9, true, vec![b'a' + i; 30])).collect();
+            let ents: Vec<(&[u8], u64, bool, &[u8])> = owned.iter().map(|e| (e.0.as_slice(), e.1, e.2, e.3.as_slice())).collect();
+            if !v::table_build(&o, &ents) {
+                println!("result=build-failed");
+                return;
+            }
+            let len = v::table_file_len(&o) as usize;
+            let (mut wrong, mut first) = (0usize, String::new());
+            for off in 0..len {
+                if !v::flip_table_byte(&o, 1, off) {
+                    continue;
+                }
+                for e in &owned {
+                    let (code, val) = v::table_get(&o, &e.0, 100);
+                    let bad = match code { 0 => val != e.3, 1 | 2 => true, _ => false };
+                    if bad {
+                        wrong += 1;
+                        if first.is_empty() {
+                            first = format!("byte {} inverted: get {} -> code {}", off, String::from_utf8_lossy(&e.0), code);
+                        }
+                    }
+                }
+                v::flip_table_byte(&o, 1, off);
+            }
+            println!("file_len={}", len);
+            println!("wrong_answers={}", wrong);
+            println!("first_wrong={}", first);
+        }
+        // pinned_version_files : an iterator pins the version holding one table; the table is compacted away and more versions
+        // are installed; the table must stay on disk and the iterator must keep its view
+        "pinned_version_files" => {
+            use raindb::{RainDbIterator, ReadOptions, WriteOptions};
+            let mut o = raindb::DbOptions::with_memory_env();
+            o.db_path = "db".to_string();
+            o.create_if_missing = true;
+            let db = raindb::DB::open(o.clone()).expect("open");
+            db.put(WriteOptions::default(), b"a".to_vec(), b"1".to_vec()).unwrap();
+            let _ = db.flush_for_verif();
+            let pinned = *v::table_numbers(&o).last().expect("a table");
+            let mut it = db.new_iterator(ReadOptions::default()).unwrap();
+            db.put(WriteOptions::default(), b"a".to_vec(), b"2".to_vec()).unwrap();
+            let _ = db.flush_for_verif();
+            db.compact_range(None..None);
+            for round in 0..3 {
+                db.put(WriteOptions::default(), format!("k{}", round).into_bytes(), b"x".to_vec()).unwrap();
+                let _ = db.flush_for_verif();
+            }
+            db.compact_range(None..None);
+            let on_disk = v::table_numbers(&o);
+            println!("pinned_table={}", pinned);
+            println!("tables_on_disk={:?}", on_disk);
+            println!("pinned_table_on_disk={}", on_disk.contains(&pinned));
+            let mut view = vec![];
+            let _ = it.seek_to_first();
+            while it.is_valid() {
+                let (k, val) = it.current().unwrap();
+                view.push(format!("{}={}", String::from_utf8_lossy(k), String::from_utf8_lossy(val)));
+                if it.next().is_none() { break; }
+            }
+            println!("iterator_view={}", view.join(","));
+            drop(it);
+            db.put(WriteOptions::default(), b"z".to_vec(), b"z".to_vec()).unwrap();
+            let _ = db.flush_for_verif();
+            db.compact_range(None..None);
+            println!("tables_after_release={:?}", v::table_numbers(&o));
+        }
         "vs_recover" => {
             // a database is created, written and closed; a fresh version set recovers from its files
             use raindb::WriteOptions;
